@@ -920,6 +920,7 @@ func init() {
 				}})
 			}
 		}
+		scns = append(scns, c05Arity(tier)...)
 		return scns
 	}
 }
